@@ -9,6 +9,9 @@ Bind : for every enumerated tree, on the real cassandra.cqltypes:
        as the protocol says; cqltype_to_python(s) has the structure PyForm(t) and python_to_cqltype of it is s up to
        whitespace, for s = CqlName(t) (incl. strings with two and three quoted identifiers);
        strip_frozen(s) = CqlName(StripFrozen(t)).
+       Parse histories (HTrees / Histories of the spec): descriptors in which a user type's name equals a plain-name
+       token (its own keyspace, the other types' keyspace, a marshal class), each alone and after each other one,
+       in registries of a process that parsed nothing else: the result must be the one the descriptor alone denotes.
 """
 import os
 import re
@@ -36,15 +39,17 @@ META = {
                   "without a FrozenType wrapper; VectorType(type , n) of 5.0); the harness's independent encoder of the "
                   "protocol value formats used for the witness value. A reversed type's CQL name is its base type's and is "
                   "read through the driver's own cassandra.metadata._cql_from_cass_type (which unwraps ReversedType). "
-                  "Leaves are int and text only, one keyspace, seven UDT names (five of them need quoting: mixed case, space, "
+                  "Parse histories are sequences of two descriptors over ten small trees; the process-global type "
+                  "registries (_casstypes, _cqltypes, UserType._cache) are snapshotted and restored by the harness around "
+                  "each history. Leaves are int and text only, one keyspace, seven UDT names (five of them need quoting: mixed case, space, "
                   "dash, embedded double quote, apostrophe), vector dimension 2; "
                   "Cassandra >= 3.6 "
                   "descriptors that wrap UserType in FrozenType are outside the dialect.",
     "design_ref": "5.6 C28",
 }
 
-INVARIANTS = ["Balanced", "NoFrozenLeft", "StripIdem", "StripExact", "DepthBound", "ReversedOutermostOnly"]
-WITNESSES = ["Witness_FrozenInside", "Witness_ReversedVector", "Witness_NotCassOk", "Witness_StripChanges", "Witness_ThreeQuoted"]
+INVARIANTS = ["Balanced", "NoFrozenLeft", "StripIdem", "StripExact", "DepthBound", "ReversedOutermostOnly", "HistoryIndependent"]
+WITNESSES = ["Witness_FrozenInside", "Witness_ReversedVector", "Witness_NotCassOk", "Witness_StripChanges", "Witness_ThreeQuoted", "Witness_NameIsLaterKeyspace"]
 
 
 class _Phases:
@@ -68,6 +73,10 @@ def evaluate(st):
     """One TypeNames state on the real code -> (n_checked, [(direction, signature, message)])."""
     t = to_py(st["t"])
     fails, n = [], 0
+    prev = st.get("prev") or ()
+    if prev or tn.uses_history_names(t):
+        # a case of the parse histories: its own registries, Cassandra notation only
+        return 1, [("cass-after-history", sig, msg) for sig, msg in tn.eval_history(prev, t, st["cass"], st["cql"])]
     if st["cassok"]:
         for full in (True, False):
             n += 1
@@ -105,7 +114,7 @@ def run(ctx):
     failures = []                      # (direction, signature, message, state)
 
     def bind(st, origin):
-        key = (tuple(st["cass"]), tuple(st["cql"]), bool(st["cassok"]))
+        key = (tuple(st["cass"]), tuple(st["cql"]), bool(st["cassok"]), tuple(st.get("prev") or ()))
         if key in seen:
             return
         seen.add(key)
@@ -113,6 +122,8 @@ def run(ctx):
         for node in tn.tree_kinds(t):
             if node["k"] == "udt" and hexes[node["nm"]] not in st["cass"]:
                 raise tlc.MachineryError("hex table of TypeNames.tla disagrees with hexlify for %r" % node["nm"])
+            if node["k"] == "udt" and st["cass"][st["cass"].index(hexes[node["nm"]]) - 2] != tn.UDT_KS.get(node["nm"], "ks"):
+                raise tlc.MachineryError("keyspace table of the harness differs from UdtKs for %r" % node["nm"])
         if tn.KIND_CLASS[t["k"]] != st["cass"][0] and not (t["k"] == "frozen" and t["a"][0]["k"] in ("tuple", "udt")):
             raise tlc.MachineryError("class table of the harness differs from MarshalClass of the specification")
         n, fails = evaluate(st)
@@ -201,8 +212,8 @@ def report(ctx, failures):
         cases = sorted(by_sig[sig], key=lambda c: (len(c[2]["cass"]) + len(c[2]["cql"]), c[0] == "cass-short", c[1]))
         d, msg, st = cases[0]
         ctx.violation("%s  [%d cases with this signature]" % (msg, len(cases)),
-                      replay={"state": {k: to_py(st[k]) for k in ("t", "cass", "cassok", "cql", "stripped", "py")},
-                              "more": [{k: to_py(c[2][k]) for k in ("t", "cass", "cassok", "cql", "stripped", "py")} for c in cases[1:10]]},
+                      replay={"state": {k: to_py(st[k]) for k in ("t", "cass", "cassok", "cql", "stripped", "py", "prev")},
+                              "more": [{k: to_py(c[2][k]) for k in ("t", "cass", "cassok", "cql", "stripped", "py", "prev")} for c in cases[1:10]]},
                       signature=sig)
 
 
@@ -213,6 +224,7 @@ def replay(ctx, r):
         st = dict(st, cass=tuple(st["cass"]), cql=tuple(st["cql"]), stripped=tuple(st["stripped"]))
         if "py" not in st:
             st["py"] = None
+        st["prev"] = tuple(tuple(p) for p in st.get("prev") or ())
         n, fails = evaluate(st)
         print("%s | %s" % (tn.cass_string(st["cass"]) if st["cassok"] else "-", tn.cql_string(st["cql"])))
         for d, sig, msg in fails:
